@@ -342,3 +342,10 @@ def run(ctx: core.Ctx) -> None:
         stage_facade(ctx, spec, 4000)
         stage_tables(ctx, spec, n_comp=30, n_full=16, stride_full=1)
         stage_sutton(ctx, spec, 40000)
+
+    # per-call statement of the property under concurrent use (Reentrant.tla): the same calls from several threads at once
+    from ..drivers import threads  # noqa: PLC0415
+
+    threads.clause(ctx, ['facade', 'sutton', 'tables'])
+
+
